@@ -1,9 +1,11 @@
 package s0179
 
+type G1 struct {
+	F1x0 int64
+}
 
 type T struct {
-	F0 int32
-	F1 *int64
-	F2 *uint32
-	F3 []uint64
+	F0 *int32
+	F1 []G1
+	F2 uint32
 }
